@@ -2,7 +2,10 @@ module verifharness
 
 go 1.16
 
-require qchen.fun/fatchoy v0.0.0
+require (
+	google.golang.org/protobuf v1.26.0
+	qchen.fun/fatchoy v0.0.0
+)
 
 replace qchen.fun/fatchoy => /repo
 
